@@ -90,11 +90,13 @@ class Checker:
             if fn_ is not None:
                 gone, sim, delta = shape.rewritten(fn_.key, fn_.raw or fn_.node)
                 if gone:
-                    self.obs.append(Ob(rule, INCOMPLETE, m, f, l, f"verdict withheld ({construct[:160]}): {fn_.qualname} was rewritten (similarity "
-                                       f"{sim if sim is not None else 'n/a: not on the audited tree'} to the audited shape, {delta} shape lines changed); "
-                                       "the rule's reading of it is not reliable enough to report what it did not find", dict(facts, shape_similarity=sim)))
-                    return
-                facts = dict(facts, shape_similarity=sim)
+                    # decided in finish(): a verdict that matches a recorded known finding (a defect confirmed concretely) is kept
+                    facts = dict(facts, shape_similarity=sim, _withhold=(
+                        f"verdict withheld ({construct[:160]}): {fn_.qualname} was rewritten (similarity "
+                        f"{sim if sim is not None else 'n/a: not on the audited tree'} to the audited shape, {delta} shape lines changed); "
+                        "the rule's reading of it is not reliable enough to report what it did not find"))
+                else:
+                    facts = dict(facts, shape_similarity=sim)
         self.obs.append(Ob(rule, VIOLATION, m, f, l, what, construct, facts, evaluations))
 
     def _func_of(self, where) -> Func | None:
@@ -142,6 +144,11 @@ class Checker:
                        f"rule matched {counts.get(rule, 0)} instances, fewer than the {mn} confirmed by hand")
                 )
         known = load_known()
+        for o in self.obs:
+            if o.verdict == VIOLATION and "_withhold" in o.facts:
+                msg = o.facts.pop("_withhold")
+                if match_known(known, self.pid, o) is None:
+                    o.verdict, o.what, o.construct = INCOMPLETE, msg, ""
         viol = [o for o in self.obs if o.verdict == VIOLATION]
         inc = [o for o in self.obs if o.verdict == INCOMPLETE]
         new_viol: list[Ob] = []
